@@ -24,6 +24,7 @@ import (
 	governToken "github.com/xuperchain/xupercore/kernel/contract/proposal/govern_token"
 	"github.com/xuperchain/xupercore/kernel/contract/proposal/propose"
 	timerTask "github.com/xuperchain/xupercore/kernel/contract/proposal/timer"
+	"github.com/xuperchain/xupercore/kernel/engines/xuperos"
 	"github.com/xuperchain/xupercore/kernel/engines/xuperos/agent"
 	"github.com/xuperchain/xupercore/kernel/engines/xuperos/common"
 	"github.com/xuperchain/xupercore/kernel/permission/acl"
@@ -172,6 +173,8 @@ type World struct {
 	Ledger  *ledger.Ledger
 	State   *state.State
 	Chain   *common.ChainCtx
+	// Node is the real xuperos.Chain object over Chain (PreExec / SubmitTx).
+	Node *xuperos.Chain
 	Genesis *pb.InternalBlock
 	Log     logs.Logger
 	// KernelHook, if set, is called with the contract manager each time the
@@ -335,6 +338,7 @@ func (w *World) openState() error {
 	if w.KernelHook != nil {
 		w.KernelHook(mg)
 	}
+	w.Node = xuperos.VNewChain(cc)
 	return nil
 }
 
